@@ -802,8 +802,31 @@ func (x *Exec) applySpec(fr *Frame, st *State, spec *FuncSpec, c *ssa.CallCommon
 		elem := sv.Typ.Underlying().(*types.Slice).Elem()
 		sh := leafShape(elem)
 		if structOf(elem) != nil {
-			x.note("havocelems: struct elements not supported; whole heap havocked (" + key + ")")
-			x.havocAll(st, key)
+			// struct elements are objects: their fields live in the per-(type, field) arrays.
+			// Rewriting the elements in place is over-approximated by forgetting those arrays
+			// (for every object of the element type and of the struct types nested in it).
+			x.frameRef(fr, st, sv.Arr, "slice elements rewritten by "+key, pos)
+			var rec func(t types.Type, depth int)
+			rec = func(t types.Type, depth int) {
+				stt := structOf(t)
+				if stt == nil || depth > 5 {
+					return
+				}
+				for i := 0; i < stt.NumFields(); i++ {
+					ft := stt.Field(i).Type()
+					if structOf(ft) != nil {
+						rec(ft, depth+1)
+						continue
+					}
+					for _, l := range leafShape(ft) {
+						name := fieldArrayName(t, stt.Field(i)) + l.suffix
+						sort := arrSort(SRef, l.sort)
+						x.arr(st, name, sort)
+						x.setArr(st, name, sort, m.fresh(name+"@elems", sort))
+					}
+				}
+			}
+			rec(elem, 0)
 			continue
 		}
 		x.frameRef(fr, st, sv.Arr, "slice elements rewritten by "+key, pos)
